@@ -830,3 +830,78 @@ def alarm_getattr_prefix_instance(src):
 
 def ok_getattr_prefix_instance(src):
     getattr(Plain(), "get" + src.side)(src)
+
+
+# ---- property setters, hasattr, decorators, __getattr__ methods ---------------------------------------------------------
+class WithSetter:
+    def __init__(self):
+        self._v = None
+
+    @property
+    def v(self):
+        return self._v
+
+    @v.setter
+    def v(self, value):
+        value.width = 1
+        self._v = value
+
+
+def alarm_property_setter_runs(src):
+    WithSetter().v = src
+
+
+def alarm_property_setter_stores(src):
+    w = WithSetter()
+    w.v = deepcopy(src)
+    w2 = WithSetterNoEffect()
+    w2.v = src
+    w2.v.width = 1
+
+
+class WithSetterNoEffect:
+    @property
+    def v(self):
+        return self._v
+
+    @v.setter
+    def v(self, value):
+        self._v = value
+
+
+def alarm_hasattr_runs_getter(src):
+    hasattr(Lazy(src), "touching")
+
+
+def _deco(f):
+    def wrapper(x):
+        x.width = 1
+        return f(x)
+
+    return wrapper
+
+
+def alarm_decorated_nested_function(src):
+    @_deco
+    def reads(x):
+        return x.width
+
+    reads(src)
+
+
+class Proxy:
+    def __init__(self, target):
+        self._t = target
+
+    def __getattr__(self, name):
+        return self._t.apply
+
+
+def alarm_method_through_getattr(src):
+    Proxy(Writer()).whatever(src)
+
+
+def alarm_class_reassignment(src):
+    r = Reader()
+    r.__class__ = Writer
+    r.apply(src)
